@@ -2,6 +2,8 @@
 #   make -j16 all            all flavours
 #   make -j16 F=asan one     one flavour
 REPO ?= /repo
+# the directory this Makefile lives in (normally /verif; a snapshot copy builds from its own sources)
+VERIF := $(patsubst %/,%,$(dir $(abspath $(lastword $(MAKEFILE_LIST)))))
 F ?= asan
 B := build/$(F)
 CXX := clang++
@@ -16,7 +18,7 @@ SAN := $(SAN_$(F))
 OPT := -O1 -g
 # the library's own compile-time trace switches are on: every trace point is a scheduling point for the simulator (BLOC_VERIF hook in bloc::DBG)
 DEFS := -DBLOC_VERIF -DDEBUG_COMPLEX -DDEBUG_SYMBOL -DDEBUG_VALUE '-DLIBVERSION="$(LIBVERSION)"' '-DLIBSOVERSION="$(LIBSOVERSION)"' -DLIB_DLL_EXPORTS '-DSIM_FLAVOUR="$(F)"'
-INC := -I$(REPO) -I$(REPO)/blocc -I/verif/sim -I/verif
+INC := -I$(REPO) -I$(REPO)/blocc -I$(VERIF)/sim -I$(VERIF)
 CXXFLAGS := -std=c++17 $(OPT) $(SAN) $(DEFS) $(INC) -fPIC -Wno-deprecated-declarations -MMD -MP
 CFLAGS := $(OPT) $(SAN) $(DEFS) $(INC) -fPIC -MMD -MP -Wno-unused-function
 # sources that must stay invisible to ThreadSanitizer (scheduler hand-off, plugin host)
@@ -26,7 +28,7 @@ NOSAN_CFLAGS := $(OPT) $(DEFS) $(INC) -fPIC -MMD -MP
 BLOCC_CPP := $(wildcard $(REPO)/blocc/*.cpp $(REPO)/blocc/member/*.cpp $(REPO)/blocc/operator/*.cpp $(REPO)/blocc/builtin/*.cpp)
 BLOCC_C := $(REPO)/blocc/lex._tokenizer.c $(REPO)/blocc/readstdin.c
 APPS_CPP := $(addprefix $(REPO)/apps/,main.cpp main_options.cpp cli_parser.cpp cli_msgdb.cpp read_file.cpp signalhandler.cpp)
-SIM_CPP := $(filter-out /verif/sim/seams/vfhost.cpp,$(wildcard /verif/sim/core/*.cpp /verif/sim/seams/*.cpp /verif/sim/gen/*.cpp /verif/sim/ref/*.cpp /verif/sim/oracle/*.cpp /verif/sim/props/*.cpp))
+SIM_CPP := $(filter-out $(VERIF)/sim/seams/vfhost.cpp,$(wildcard $(VERIF)/sim/core/*.cpp $(VERIF)/sim/seams/*.cpp $(VERIF)/sim/gen/*.cpp $(VERIF)/sim/ref/*.cpp $(VERIF)/sim/oracle/*.cpp $(VERIF)/sim/props/*.cpp))
 
 obj = $(patsubst %,$(B)/obj/%.o,$(subst /,_,$(1)))
 BLOCC_OBJ := $(foreach s,$(BLOCC_CPP) $(BLOCC_C),$(call obj,$(s)))
@@ -58,9 +60,9 @@ $(foreach s,$(BLOCC_C),$(eval $(call compile_rule,$(s),$(CC) $(CFLAGS))))
 $(foreach s,$(APPS_CPP),$(eval $(call compile_rule,$(s),$(CXX) $(CXXFLAGS) -Dmain=bloc_cli_main -DENABLE_READLINE)))
 $(foreach s,$(SIM_CPP),$(eval $(call compile_rule,$(s),$(CXX) $(CXXFLAGS))))
 
-$(B)/obj/handoff.o: /verif/sim/core/handoff.c | $(B)/obj/.dir
+$(B)/obj/handoff.o: $(VERIF)/sim/core/handoff.c | $(B)/obj/.dir
 	@$(CC) $(NOSAN_CFLAGS) -c $< -o $@
-$(B)/obj/vfhost.o: /verif/sim/seams/vfhost.cpp | $(B)/obj/.dir
+$(B)/obj/vfhost.o: $(VERIF)/sim/seams/vfhost.cpp | $(B)/obj/.dir
 	@$(CXX) $(NOSAN_CXXFLAGS) -c $< -o $@
 
 WRAPS := -Wl,--wrap=select -Wl,--wrap=dlopen
@@ -82,10 +84,10 @@ $(B)/libbloc_file.so.$(LIBSOVERSION): $(wildcard $(REPO)/modules/file/*.cpp) $(w
 $(B)/libbloc_sqlite3.so.$(LIBSOVERSION): $(wildcard $(REPO)/modules/sqlite3/*.cpp) $(wildcard $(REPO)/modules/sqlite3/*.h) | $(B)/obj/.dir
 	@echo "  SO $@"
 	@$(CXX) $(CXXFLAGS) -shared -o $@ $(filter %.cpp,$^) -lsqlite3
-$(B)/libbloc_vf.so.$(LIBSOVERSION): /verif/sim/vf/plugin_vf.cpp /verif/sim/vf/plugin_vf.h /verif/sim/vf/vf_host.h /verif/sim/vf/vf_object.h | $(B)/obj/.dir
+$(B)/libbloc_vf.so.$(LIBSOVERSION): $(VERIF)/sim/vf/plugin_vf.cpp $(VERIF)/sim/vf/plugin_vf.h $(VERIF)/sim/vf/vf_host.h $(VERIF)/sim/vf/vf_object.h | $(B)/obj/.dir
 	@echo "  SO $@"
 	@$(CXX) $(CXXFLAGS) '-DVF_MODNAME="vf"' -DVF_MODNUM=1 -shared -o $@ $<
-$(B)/libbloc_vg.so.$(LIBSOVERSION): /verif/sim/vf/plugin_vf.cpp /verif/sim/vf/plugin_vf.h /verif/sim/vf/vf_host.h /verif/sim/vf/vf_object.h | $(B)/obj/.dir
+$(B)/libbloc_vg.so.$(LIBSOVERSION): $(VERIF)/sim/vf/plugin_vf.cpp $(VERIF)/sim/vf/plugin_vf.h $(VERIF)/sim/vf/vf_host.h $(VERIF)/sim/vf/vf_object.h | $(B)/obj/.dir
 	@echo "  SO $@"
 	@$(CXX) $(CXXFLAGS) '-DVF_MODNAME="vg"' -DVF_MODNUM=2 -shared -o $@ $<
 
